@@ -58,10 +58,14 @@ inductive Err where
 `assert_correct_type` evaluates `int(value)` on an infinity and dies with OverflowError. -/
 structure Cfg where
   intInfGuard : Bool
+  /-- C17: `_trial_to_external_values` finds the parent of a child config by its NAME in the
+  values seen so far (`true`, the code as written) or carries the parent's value along with
+  the child (`false`) -/
+  parentByName : Bool := true
   deriving DecidableEq, Repr
 
-def Cfg.asWritten : Cfg := { intInfGuard := false }
-def Cfg.fixed : Cfg := { intInfGuard := true }
+def Cfg.asWritten : Cfg := { intInfGuard := false, parentByName := true }
+def Cfg.fixed : Cfg := { intInfGuard := true, parentByName := false }
 
 def b2r (b : Bool) : Rat := if b then 1 else 0
 def b2i (b : Bool) : Int := if b then 1 else 0
